@@ -3,7 +3,7 @@
    [sub_dec] is the executable oracle used by the correspondence run against
    subtype / subtype_with_config / subtype_check_all / service_compatible / service_compatibility_report. *)
 From Coq Require Import List NArith.
-From CandidV Require Import model.Sub model.Memo proofs.SubProofs proofs.MemoProofs proofs.MemoInst.
+From CandidV Require Import model.Sub model.Memo proofs.SubProofs proofs.MemoProofs proofs.MemoInst proofs.MemoTotal.
 Open Scope N_scope.
 
 (* the oracle decides the co-inductive relation, for every environment and every pair of types (no bound) *)
@@ -58,6 +58,38 @@ Theorem C05_memo_strict_sound : forall E f g a b,
   sound_memo E g -> snd (query plan_sub E true f g a b) = MOk -> Sub E a b.
 Proof. exact sub_query_strict_sound. Qed.
 
+(* TOTAL CORRECTNESS of the algorithm (no hypothesis about fuel or panics): when every name among the sub-term nodes of
+   the environment and of the types asked about is bound, a history run with at least [fuel_bound] levels of nesting
+   answers every query, each answer is the oracle's -- yes exactly for the pairs of the relation, no exactly for the
+   others -- and gamma stays sound.  [fuel_bound] = 1 + |N x N| * (2 * largest node + 2) + 2 * largest node: the calls in
+   progress that unfold a name are distinct node pairs that were not in gamma, and between two of them the structural
+   arms only descend into strictly smaller types. *)
+Theorem C05_memo_total_correct : forall E qs g f,
+  bound_nodes E (query_types qs) = true -> sound_memo E g -> (fuel_bound E qs <= f)%nat ->
+  let o := sub_history E false f g qs in
+  Forall2 (fun q r => (r = MOk <-> sub_dec E (fst q) (snd q) = true) /\ (r = MErr <-> sub_dec E (fst q) (snd q) = false)) qs (snd o)
+  /\ sound_memo E (fst o).
+Proof. exact sub_checker_total_correct. Qed.
+
+Theorem C05_memo_equal_total_correct : forall E qs g f,
+  bound_nodes E (query_types qs) = true -> sound_eq_memo E g -> (fuel_bound E qs <= f)%nat ->
+  let o := eq_history E f g qs in
+  Forall2 (fun q r => (r = MOk <-> eq_dec E (fst q) (snd q) = true) /\ (r = MErr <-> eq_dec E (fst q) (snd q) = false)) qs (snd o)
+  /\ sound_eq_memo E (fst o).
+Proof. exact eq_checker_total_correct. Qed.
+
+Theorem C05_memo_strict_total : forall E qs g f,
+  bound_nodes E (query_types qs) = true -> (fuel_bound E qs <= f)%nat ->
+  forallb answered (snd (sub_history E true f g qs)) = true.
+Proof. exact strict_checker_total. Qed.
+
+(* non-vacuity: the stale-memo environment has all names bound *)
+Example C05_ex_bound :
+  let E := [ ([78], TRec [(108, TVar [77]); (120, TPrim PNat)]); ([77], TRec [(110, TVar [78])]);
+             ([78;50], TRec [(108, TVar [77;50]); (120, TPrim PText)]); ([77;50], TRec [(110, TVar [78;50])]) ] in
+  bound_nodes E (query_types [(TVar [77], TVar [77;50]); (TOpt (TVar [78]), TOpt (TVar [78;50]))]) = true.
+Proof. vm_compute. reflexivity. Qed.
+
 (* non-vacuity: the stale-memo history (a failed opt probe followed by the query it must not have poisoned) runs to its
    end in the mirror and answers no / no / yes(opt rule) / no / no *)
 Example C05_ex_memo_history :
@@ -101,3 +133,6 @@ Print Assumptions C05_trans_refuted.
 Print Assumptions C05_memo_history.
 Print Assumptions C05_memo_equal_history.
 Print Assumptions C05_memo_strict_sound.
+Print Assumptions C05_memo_total_correct.
+Print Assumptions C05_memo_equal_total_correct.
+Print Assumptions C05_memo_strict_total.
